@@ -48,6 +48,29 @@ def cases(rng, tier):
                 t = gen.bi('ㄱㄹ', t, gen.fundef(gen.bi('ㄱㅅ', g.gen('int', None, 3))))
         yield Case(program=gen.render(t), stdin="line1\nline2\n", mode='events', tag='events', monitor='c19_nested',
                    nontrivial=gen.size(t) >= 6)
+    yield from deep_cases(rng, tier)
+
+
+def deep_cases(rng, tier):
+    """long-running and deep evaluations under the observer: tail loops far beyond the frame limit, non-tail
+    recursion close to it, the stack-limit abort, and a throw from the bottom of a long loop (caught and not)"""
+    from . import c05
+    from ..gen import enc
+    sizes = [50, 2600, 6000] if tier == 'quick' else [50, 700, 2600, 6000, 20000]
+    for name, mk in c05.TAIL.items():
+        for n in sizes:
+            yield Case(program=mk(n)[0], mode='events', tag=f'deep-tail-{name}', monitor='c19_nested', timeout=120, fuel=10 ** 9)
+    for n in ([300, 1200] if tier == 'quick' else [300, 1200, 1600]):
+        # non-tail: s(n) = n == 0 ? 0 : 1 + s(n-1)
+        yield Case(program=f"{enc(n)} (ㄱ (ㄴ (ㄱㅇㄱ ㄴㄱ ㄷㅎㄷ ㄱㅇ ㅎㄴ) ㄷㅎㄷ) (ㄱㅇㄱ ㄱ ㄴㅎㄷ) ㅎㄷ ㅎ) ㅎㄴ", mode='events',
+                   tag='deep-nontail', monitor='c19_nested', timeout=120, fuel=10 ** 9)
+    # runs into the evaluator's frame limit
+    yield Case(program="ㄴ ㄱㅇ ㅎㄱ ㄷㅎㄷ ㅎ ㅎㄱ", mode='events', tag='deep-limit', monitor='c19_nested', timeout=120, fuel=10 ** 9)
+    for n in ([2600] if tier == 'quick' else [100, 2600, 6000]):
+        # t(n) = n == 0 ? throw : t(n-1), uncaught and caught by ㅅㄷ
+        loop = f"{enc(n)} (ㄱㅇㄱ ㄴㄱ ㄷㅎㄷ ㄱㅇ ㅎㄴ (ㄷ ㄷㅂㅎㄴ ㄷㅈㅎㄴ) (ㄱㅇㄱ ㄱ ㄴㅎㄷ) ㅎㄷ ㅎ) ㅎㄴ"
+        yield Case(program=loop, mode='events', tag='deep-throw', monitor='c19_nested', timeout=120, fuel=10 ** 9)
+        yield Case(program=f"({loop}) (ㄱ ㅎ) ㅅㄷㅎㄷ", mode='events', tag='deep-throw-caught', monitor='c19_nested', timeout=120, fuel=10 ** 9)
 
 
 SPEC = {
@@ -57,7 +80,7 @@ SPEC = {
     'rule': 'typed programs (60 %), ill-typed / throwing calls (20 %) and I/O bind programs (20 %) run with a passive '
             'recording DebuggerBase subclass: the stream must be a balanced bracket word with depth = nesting + 1, end at '
             'depth 0 for value and exception outcomes, equal the model machine\'s stream event by event, and result / '
-            'exception / stdout / consumed stdin must equal those of the run without observer. Non-trivial = ≥ 6 nodes',
+            'exception / stdout / consumed stdin must equal those of the run without observer; plus long tail loops (5 shapes × 50 … 6000 / 20000 iterations), non-tail recursion 300 … 1600 deep, the frame-limit abort and a throw from the bottom of a 2600-iteration loop (caught / uncaught), all under the observer. Non-trivial = ≥ 6 nodes',
     'trusted': [],
     'assumptions': ['the stack-limit abort is excluded from "depth back to zero" (the loop is left by a raised RuntimeError)'],
 }
